@@ -1,17 +1,55 @@
 import GoframeModel.Step
+import GoframeModel.Spec.Invalid
 /-
-  C20 — frames stay rectangular and row-aligned through every operation history.
-  Property theorems only; helper lemmas live in GoframeModel/Lemmas.
+  C20 — invalid requests produce errors, never panics, and leave frames untouched.
+  The model's primitives are CHECKED (indexing, slicing, map-miss-then-field-access and type assertion
+  yield `Outcome.panic` exactly where Go's unchecked ones would), so "never panics" is a theorem about
+  the model: the guards of the code imply the guards of the primitives, for every argument value.
 -/
 namespace Goframe.C20
 open Goframe Frame
 
-/-- `Nrows()` does not depend on which column Go's map iteration meets first: under rectangularity
-every column has the reported length. -/
-theorem nrows_any_column {f : Frame} {n : Nat} (h : RectN f n) :
-    ∀ kc ∈ f, kc.2.data.length = nrows f := by
-  intro kc hkc
-  have hne : f ≠ [] := by intro h0; simp [h0] at hkc
-  rw [nrows_of_rectN h hne]; exact (h kc hkc).1
+def Good (p : Pool) : Prop := ∀ f ∈ p, f.Rect ∧ f.Sorted
+
+/-- public API operations (direct cell assignment `Columns[k].Data[i] = v` is not an API call) -/
+def IsApi : Op → Prop
+  | .setCell .. => False
+  | _ => True
+
+/-- NO PANIC: for rectangular frames and ANY argument values — unknown names, negative / out-of-range /
+extreme indexes and counts, unknown option strings, mismatched operands, cells of the wrong type -/
+theorem no_panic (ω : Oracle) (p : Pool) (op : Op) (hp : Good p) (hapi : IsApi op) :
+    (opEffect ω p op).isPanic = false := by
+  sorry
+
+/-- INVALID ⇒ ERROR: every request of a class the property names is answered with an error -/
+theorem invalid_is_err (ω : Oracle) (p : Pool) (op : Op) (hp : Good p)
+    (hinv : Spec.invalidRequest ω p op = true) : (opEffect ω p op).isErr = true := by
+  sorry
+
+/-- ERROR ⇒ UNTOUCHED: an operation that returns an error leaves every live frame as it was
+(`step` produces a new pool only from a successful effect) -/
+theorem err_unchanged (ω : Oracle) (p : Pool) (op : Op) (ops : List Op) (e : String)
+    (h : step ω p op = .err e) : run ω p (op :: ops) = run ω p ops := by
+  sorry
+
+/-- Head / Tail / RowSlice / Shift accept every 64-bit count, bound and offset -/
+theorem counts_total (f : Frame) {n : Nat} (hr : f.RectN n) (hn : (n : Int) < 2 ^ 62) (c a b : Int) :
+    (f.head c).isOk = true ∧ (f.tail c).isOk = true ∧ (f.rowSlice a b).Rect ∧ (f.shift c).Rect := by
+  sorry
+
+/-- the pinned code paths panic (findings D14, D15, D16, D17), as `decide` witnesses on the pinned models -/
+theorem pinned_head_panics :
+    (Frame.headPinned [([97], { name := [97], data := [.int .int 1] })] (-1)).isPanic = true := by decide
+
+/-- pinned `SortValues`/`Less`: the sort column is looked up without an existence check, then dereferenced -/
+def lessPinnedLookup (f : Frame) (k : Str) : Outcome Col :=
+  match f.get? k with
+  | some c => .ok c
+  | none => .panic "nil pointer dereference"
+
+theorem pinned_sort_missing_panics :
+    (lessPinnedLookup [([97], { name := [97], data := [.int .int 1, .int .int 2] })] [122, 122]).isPanic = true := by
+  decide
 
 end Goframe.C20
